@@ -1,5 +1,6 @@
 /* generic.c -- generator and executor of the generic case (truthful callers) */
 #include "generic.h"
+#include "wraps.h"
 #include <limits.h>
 
 static const long LAT[] = {0, 1, 2, 3, 4, 5, 6, 7, 8, 9, 10, 11, 12, 13, 14, 15, 16, 17, 18, 19, 20,
@@ -355,7 +356,9 @@ void gh_install(void) {
     set_mem_constraint_handler_s(h_mem);
 }
 
-void gc_run(const gcase_t *c, gexec_t *x) {
+static void gc_run_inner(const gcase_t *c, gexec_t *x);
+void gc_run(const gcase_t *c, gexec_t *x) { g_globstate_calls = 0; g_globstate_sym = NULL; gc_run_inner(c, x); }
+static void gc_run_inner(const gcase_t *c, gexec_t *x) {
     const row_t *r = &g_rows[c->row];
     uint32_t s = c->cseed * 2654435761u + 12345;
     size_t i, delems = c->dtrue / (size_t)r->w;
@@ -365,7 +368,7 @@ void gc_run(const gcase_t *c, gexec_t *x) {
     x->faulted = 0; x->canary_bad = NULL; x->h_str = x->h_mem = 0; x->h_code = -1; x->errp_val = -12345;
     x->dest = x->src = x->out = x->errp = NULL;
     ar_reset();
-    if ((r->fl & F_SRC) && c->src_first) x->src = ar_alloc(g, c->splace, c->strue, 0); /* lower slot = lower address */
+    if ((r->fl & F_SRC) && c->src_first && !GC_QALIAS(c)) x->src = ar_alloc(g, c->splace, c->strue, 0); /* lower slot = lower address */
     /* dest */
     x->dest = ar_alloc(g, c->dplace, c->dtrue, (size_t)c->dskew);
     for (i = 0; i < delems; i++) {
@@ -386,7 +389,13 @@ void gc_run(const gcase_t *c, gexec_t *x) {
     x->dbytes_decl = c->dmax > c->dtrue ? c->dtrue : c->dmax * (size_t)r->du;
     if (x->dbytes_decl > c->dtrue) x->dbytes_decl = c->dtrue;
     /* src */
-    if (r->fl & F_SRC) {
+    if ((r->fl & F_SRC) && GC_QALIAS(c)) { /* the needle / second operand lies inside the first: nothing is written, so this is a valid call */
+        x->src = x->dest + (size_t)c->ov_off * (size_t)r->w;
+        memcpy(x->src_before, x->src, c->strue);
+        a->src = x->src;
+        a->slen = c->slen;
+        a->srcbos = c->sbos ? c->strue : BOS_UNKNOWN;
+    } else if (r->fl & F_SRC) {
         size_t selems = c->strue / (size_t)r->w;
         if (!c->src_first) x->src = ar_alloc(g, c->splace, c->strue, 0);
         for (i = 0; i < selems; i++) {
@@ -464,6 +473,7 @@ void gc_describe(const void *kase, char *buf, size_t n) {
         if (c->scontent == SC_STR && k < (int)n) k += snprintf(buf + k, n - (size_t)k, " len=%zu", c->slen_true);
         if ((r->fl & F_SLEN) && k < (int)n) k += snprintf(buf + k, n - (size_t)k, " slen=%zu", c->slen);
     }
+    if (GC_QALIAS(c) && k < (int)n) k += snprintf(buf + k, n - (size_t)k, "; src = dest + %d (the second operand is a tail of the first)", (int)c->ov_off);
     if ((r->fl & F_N) && k < (int)n) k += snprintf(buf + k, n - (size_t)k, "; n=%zu", c->n);
     if ((r->fl & F_VAL) && k < (int)n) k += snprintf(buf + k, n - (size_t)k, "; val=%ld", c->val);
     if (c->out_null && k < (int)n) k += snprintf(buf + k, n - (size_t)k, "; out=NULL");
